@@ -424,6 +424,11 @@ def random_connected(rng, num=None, curved=False, center=(0, 0), size=10.0, nhol
                 if verts:
                     break
             if verts is None:
+                for _ in range(30):
+                    verts = convex_polygon(rng, rng.randint(5, 8), (cx, cy), 0.95 * scale, grid if (grid is None or grid * scale >= 48) else int(math.ceil(48 / scale)))
+                    if verts:
+                        break
+            if verts is None:
                 raise RuntimeError("outer")
             outer = poly_spec(verts, num)
         parts.append(outer)
